@@ -220,6 +220,82 @@ fn main() {
             .get("max_trees")
             .and_then(|x| x.as_u64())
             .unwrap_or(200) as usize;
+        // "reuse" with a GLR case: one GlrParser instance for the whole input sequence
+        if case.get("reuse").and_then(|x| x.as_bool()) == Some(true) && glr_primary {
+            if resume.is_some() {
+                // the process died inside this session (stack overflow / abort in the code
+                // under test): every input of the session is recorded as a crash
+                for inp in inputs.iter() {
+                    let text = inp["text"].as_str().unwrap();
+                    let mut h = dynparser::panic_json("process aborted (stack overflow?)");
+                    h["k"] = json!("crash");
+                    let out = json!({
+                        "id": id, "iid": inp.get("iid").cloned().unwrap_or(json!(0)),
+                        "g": gref, "g2": gref, "algo": cfg.algo, "partial": cfg.partial,
+                        "bytes": text.bytes().map(|b| json!(b)).collect::<Vec<_>>(),
+                        "lex": inp.get("lex").cloned().unwrap_or(json!([])),
+                        "lat": json!([]),
+                        "meta": inp.get("meta").cloned().unwrap_or(json!({})),
+                        "res": dynparser::none_json(), "ev": json!([]), "tree": dynparser::empty_tree(),
+                        "gres": h, "forest": dynparser::no_forest(),
+                    });
+                    writeln!(traces, "{}", out).unwrap();
+                }
+                continue;
+            }
+            let (lm, go, skip_ws, partial) = (cfg.lm, cfg.go, cfg.skip_ws, cfg.partial);
+            let texts: Vec<&'static str> = inputs
+                .iter()
+                .map(|i| &*Box::leak(i["text"].as_str().unwrap().to_string().into_boxed_str()))
+                .collect();
+            let (tx, rx) = mpsc::channel();
+            let texts2 = texts.clone();
+            progress(ci, 0, "glr");
+            std::thread::Builder::new()
+                .stack_size(256 << 20)
+                .spawn(move || {
+                    def.install(lm, go);
+                    let mut session = dynparser::GlrSession::new(def, recs, partial, skip_ws, max_trees);
+                    for t in texts2 {
+                        let r = std::panic::catch_unwind(std::panic::AssertUnwindSafe(|| session.parse(t)));
+                        let poisoned = r.is_err();
+                        let _ = tx.send(r.map_err(|p| vharness::panic_message(p)));
+                        if poisoned {
+                            session = dynparser::GlrSession::new(def, recs, partial, skip_ws, max_trees);
+                        }
+                    }
+                })
+                .unwrap();
+            for (ii, inp) in inputs.iter().enumerate() {
+                let (gres, forest, hung) = match rx.recv_timeout(Duration::from_millis(timeout_ms)) {
+                    Ok(Ok((a, b))) => (a, b, false),
+                    Ok(Err(p)) => (dynparser::panic_json(&p), dynparser::no_forest(), false),
+                    Err(_) => {
+                        let mut h = dynparser::panic_json("timeout");
+                        h["k"] = json!("hang");
+                        (h, dynparser::no_forest(), true)
+                    }
+                };
+                let text = texts[ii];
+                let out = json!({
+                    "id": id, "iid": inp.get("iid").cloned().unwrap_or(json!(0)),
+                    "g": gref, "g2": gref, "algo": cfg.algo, "partial": partial,
+                    "bytes": text.bytes().map(|b| json!(b)).collect::<Vec<_>>(),
+                    "lex": inp.get("lex").cloned().unwrap_or(json!([])),
+                    "lat": json!([]),
+                    "meta": inp.get("meta").cloned().unwrap_or(json!({})),
+                    "res": dynparser::none_json(), "ev": json!([]), "tree": dynparser::empty_tree(),
+                    "gres": gres, "forest": forest,
+                });
+                writeln!(traces, "{}", out).unwrap();
+                if hung {
+                    traces.flush().unwrap();
+                    eprintln!("HANG case_index={ci}");
+                    std::process::exit(3);
+                }
+            }
+            continue;
+        }
         // "reuse": one LR parser instance for the whole input sequence of the case
         if case.get("reuse").and_then(|x| x.as_bool()) == Some(true) && lr_runnable {
             let (lm, go, skip_ws, partial) = (cfg.lm, cfg.go, cfg.skip_ws, cfg.partial);
